@@ -40,30 +40,42 @@ private theorem linear_nodes (n : ℕ) (a : ℕ → ℝ) (d : ℝ) (hd : 0 < d)
       have : a i / d ≤ 2 := by rw [div_le_iff₀ hd]; linarith
       linarith
 
-/-- **Trapezoidal(n)**, every `n ≥ 2`. -/
+private theorem cast_le_pred (n i : ℕ) (hi : i < n) : (i : ℝ) ≤ (n : ℝ) - 1 := by
+  have : i + 1 ≤ n := by omega
+  have : ((i + 1 : ℕ) : ℝ) ≤ n := by exact_mod_cast this
+  push_cast at this; linarith
+
+private theorem pred_pos (n : ℕ) (hn : 2 ≤ n) : (0 : ℝ) < (n : ℝ) - 1 := by
+  have : (2 : ℝ) ≤ n := by exact_mod_cast hn
+  linarith
+
+/-- **Trapezoidal(n)**, every `n ≥ 2` (guards, lengths, entries and domain from the regenerated source). -/
 theorem trapezoidal_shape (n : ℕ) (hn : 2 ≤ n) :
     ClosedShape (Trapezoidal.make (n : ℤ)) (Trapezoidal.points n) (Trapezoidal.weights n) (-1) (some 1) n := by
   have hmk : Trapezoidal.make (K := ℝ) (n : ℤ)
       = oneDGrid (Trapezoidal.points n) (Trapezoidal.weights n) (-1) (some 1) := by
     unfold Trapezoidal.make
-    simp only [show ¬ ((n : ℤ) ≤ 1) by omega, if_false, Int.toNat_natCast, negOne_real, one_real]
-  have hd : (0 : ℝ) < ((n - 1 : ℕ) : ℝ) := by rw [cast_pred n hn]; have : (2 : ℝ) ≤ n := by exact_mod_cast hn
-                                              linarith
-  obtain ⟨h1, h2, h3⟩ := linear_nodes n (fun i => ((2 * i : ℕ) : ℝ)) ((n - 1 : ℕ) : ℝ) hd
+    simp [Gen.OneD.Trapezoidal.rejects, Gen.OneD.Trapezoidal.lo, Gen.OneD.Trapezoidal.hi,
+      show ¬ ((n : ℤ) ≤ 1) by omega]
+  have hd := pred_pos n hn
+  obtain ⟨h1, h2, h3⟩ := linear_nodes n (fun i => 2 * (i : ℝ)) ((n : ℝ) - 1) hd
     (fun i hi => by
       constructor
       · positivity
-      · rw [cast_pred n hn]; push_cast
-        have : (i : ℝ) ≤ n - 1 := by
-          have : i ≤ n - 1 := by omega
-          rw [← cast_pred n hn]; exact_mod_cast this
+      · have := cast_le_pred n i hi
         linarith)
-    (fun i j hij _ => by exact_mod_cast (by omega : 2 * i < 2 * j))
+    (fun i j hij _ => by
+      have : (i : ℝ) < j := by exact_mod_cast hij
+      linarith)
   rw [hmk]
-  have hp : Trapezoidal.points (K := ℝ) n = (List.range n).map fun i => -1 + ((2 * i : ℕ) : ℝ) / ((n - 1 : ℕ) : ℝ) := by
-    simp [Trapezoidal.points]
+  have hp : Trapezoidal.points (K := ℝ) n = (List.range n).map fun (i : ℕ) => -1 + 2 * (i : ℝ) / ((n : ℝ) - 1) := by
+    unfold Trapezoidal.points
+    simp only [Gen.OneD.Trapezoidal.pointsLen]
+    apply List.map_congr_left
+    intro i _
+    simp only [Gen.OneD.Trapezoidal.pointAt, Gen.OneD.Trapezoidal.points0, Nat.cast_ofNat, Nat.cast_one]
   rw [hp]
-  exact closedShape_of _ _ _ _ n h1 (by simp [Trapezoidal.weights, divAt]) h2 h3
+  exact closedShape_of _ _ _ _ n h1 (by simp [Trapezoidal.weights, Gen.OneD.Trapezoidal.weightsLen]) h2 h3
 
 /-- **Simpson(n)**, every odd `n ≥ 3`. -/
 theorem simpson_shape (n : ℕ) (hn : 2 ≤ n) (hodd : n % 2 = 1) :
@@ -71,26 +83,28 @@ theorem simpson_shape (n : ℕ) (hn : 2 ≤ n) (hodd : n % 2 = 1) :
   have hmk : Simpson.make (K := ℝ) (n : ℤ)
       = oneDGrid (Simpson.points n) (Simpson.weights n) (-1) (some 1) := by
     unfold Simpson.make
-    simp only [show ¬ ((n : ℤ) ≤ 1) by omega, show ¬ ((n : ℤ) % 2 = 0) by omega, if_false,
-      Int.toNat_natCast, negOne_real, one_real]
-  have hd : (0 : ℝ) < ((n - 1 : ℕ) : ℝ) := by
-    rw [cast_pred n hn]; have : (2 : ℝ) ≤ n := by exact_mod_cast hn
-    linarith
-  obtain ⟨h1, h2, h3⟩ := linear_nodes n (fun i => ((2 * i : ℕ) : ℝ)) ((n - 1 : ℕ) : ℝ) hd
+    simp [Gen.OneD.Simpson.rejects, Gen.OneD.Simpson.lo, Gen.OneD.Simpson.hi,
+      show ¬ ((n : ℤ) ≤ 1) by omega, show ¬ ((n : ℤ) % 2 = 0) by omega]
+  have hd := pred_pos n hn
+  obtain ⟨h1, h2, h3⟩ := linear_nodes n (fun i => 2 * (i : ℝ)) ((n : ℝ) - 1) hd
     (fun i hi => by
       constructor
       · positivity
-      · rw [cast_pred n hn]; push_cast
-        have : (i : ℝ) ≤ n - 1 := by
-          have : i ≤ n - 1 := by omega
-          rw [← cast_pred n hn]; exact_mod_cast this
+      · have := cast_le_pred n i hi
         linarith)
-    (fun i j hij _ => by exact_mod_cast (by omega : 2 * i < 2 * j))
+    (fun i j hij _ => by
+      have : (i : ℝ) < j := by exact_mod_cast hij
+      linarith)
   rw [hmk]
-  have hp : Simpson.points (K := ℝ) n = (List.range n).map fun i => -1 + ((2 * i : ℕ) : ℝ) / ((n - 1 : ℕ) : ℝ) := by
-    simp [Simpson.points]
+  have hp : Simpson.points (K := ℝ) n = (List.range n).map fun (i : ℕ) => -1 + 2 * (i : ℝ) / ((n : ℝ) - 1) := by
+    unfold Simpson.points
+    simp only [Gen.OneD.Simpson.pointsLen]
+    apply List.map_congr_left
+    intro i _
+    simp only [Gen.OneD.Simpson.pointAt, Gen.OneD.Simpson.points0, Gen.OneD.Simpson.idx0, Nat.cast_ofNat,
+      Nat.cast_one]
   rw [hp]
-  exact closedShape_of _ _ _ _ n h1 (by simp [Simpson.weights, mulSlice]) h2 h3
+  exact closedShape_of _ _ _ _ n h1 (by simp [Simpson.weights, Gen.OneD.Simpson.weightsLen]) h2 h3
 
 /-- **MidPoint(n)**, every `n ≥ 2`. -/
 theorem midpoint_shape (n : ℕ) (hn : 2 ≤ n) :
@@ -98,20 +112,27 @@ theorem midpoint_shape (n : ℕ) (hn : 2 ≤ n) :
   have hmk : MidPoint.make (K := ℝ) (n : ℤ)
       = oneDGrid (MidPoint.points n) (MidPoint.weights n) (-1) (some 1) := by
     unfold MidPoint.make
-    simp only [show ¬ ((n : ℤ) ≤ 1) by omega, if_false, Int.toNat_natCast, negOne_real, one_real]
-  have hd : (0 : ℝ) < ((n : ℕ) : ℝ) := by positivity
-  obtain ⟨h1, h2, h3⟩ := linear_nodes n (fun i => ((2 * i + 1 : ℕ) : ℝ)) ((n : ℕ) : ℝ) hd
+    simp [Gen.OneD.MidPoint.rejects, Gen.OneD.MidPoint.lo, Gen.OneD.MidPoint.hi,
+      show ¬ ((n : ℤ) ≤ 1) by omega]
+  have hd : (0 : ℝ) < (n : ℝ) := by positivity
+  obtain ⟨h1, h2, h3⟩ := linear_nodes n (fun i => 2 * (i : ℝ) + 1) (n : ℝ) hd
     (fun i hi => by
       constructor
       · positivity
       · have : 2 * i + 1 ≤ 2 * n := by omega
         exact_mod_cast this)
-    (fun i j hij _ => by exact_mod_cast (by omega : 2 * i + 1 < 2 * j + 1))
+    (fun i j hij _ => by
+      have : (i : ℝ) < j := by exact_mod_cast hij
+      linarith)
   rw [hmk]
-  have hp : MidPoint.points (K := ℝ) n = (List.range n).map fun i => -1 + ((2 * i + 1 : ℕ) : ℝ) / ((n : ℕ) : ℝ) := by
-    simp [MidPoint.points]
+  have hp : MidPoint.points (K := ℝ) n = (List.range n).map fun (i : ℕ) => -1 + (2 * (i : ℝ) + 1) / (n : ℝ) := by
+    unfold MidPoint.points
+    simp only [Gen.OneD.MidPoint.pointsLen]
+    apply List.map_congr_left
+    intro i _
+    simp only [Gen.OneD.MidPoint.pointAt, Gen.OneD.MidPoint.points0, Nat.cast_ofNat, Nat.cast_one]
   rw [hp]
-  exact closedShape_of _ _ _ _ n h1 (by simp [MidPoint.weights]) h2 h3
+  exact closedShape_of _ _ _ _ n h1 (by simp [MidPoint.weights, Gen.OneD.MidPoint.weightsLen]) h2 h3
 
 /-- **RectangleRuleSineEndPoints(n)**, every `n ≥ 2`: nodes `2(i+1)/(n+1) - 1`. -/
 theorem rectanglesine_shape (n : ℕ) (hn : 2 ≤ n) :
@@ -120,33 +141,31 @@ theorem rectanglesine_shape (n : ℕ) (hn : 2 ≤ n) :
   have hmk : RectangleRuleSineEndPoints.make (K := ℝ) (n : ℤ)
       = oneDGrid (RectangleRuleSineEndPoints.points n) (RectangleRuleSineEndPoints.weights n) (-1) (some 1) := by
     unfold RectangleRuleSineEndPoints.make
-    simp only [show ¬ ((n : ℤ) ≤ 1) by omega, if_false, Int.toNat_natCast, negOne_real, one_real]
-  have hd : (0 : ℝ) < ((n + 1 : ℕ) : ℝ) := by positivity
-  obtain ⟨h1, h2, h3⟩ := linear_nodes n (fun i => ((2 * (i + 1) : ℕ) : ℝ)) ((n + 1 : ℕ) : ℝ) hd
+    simp [Gen.OneD.RectangleRuleSineEndPoints.rejects, Gen.OneD.RectangleRuleSineEndPoints.lo,
+      Gen.OneD.RectangleRuleSineEndPoints.hi, show ¬ ((n : ℤ) ≤ 1) by omega]
+  have hd : (0 : ℝ) < (n : ℝ) + 1 := by positivity
+  obtain ⟨h1, h2, h3⟩ := linear_nodes n (fun i => 2 * ((i : ℝ) + 1)) ((n : ℝ) + 1) hd
     (fun i hi => by
       constructor
       · positivity
-      · have : 2 * (i + 1) ≤ 2 * (n + 1) := by omega
-        exact_mod_cast this)
-    (fun i j hij _ => by exact_mod_cast (by omega : 2 * (i + 1) < 2 * (j + 1)))
+      · have : (i : ℝ) ≤ n := by exact_mod_cast (by omega : i ≤ n)
+        linarith)
+    (fun i j hij _ => by
+      have : (i : ℝ) < j := by exact_mod_cast hij
+      linarith)
   rw [hmk]
   have hp : RectangleRuleSineEndPoints.points (K := ℝ) n
-      = (List.range n).map fun i => -1 + ((2 * (i + 1) : ℕ) : ℝ) / ((n + 1 : ℕ) : ℝ) := by
-    unfold RectangleRuleSineEndPoints.points RectangleRuleSineEndPoints.points0
-    rw [List.map_map]
+      = (List.range n).map fun (i : ℕ) => -1 + 2 * ((i : ℝ) + 1) / ((n : ℝ) + 1) := by
+    unfold RectangleRuleSineEndPoints.points
+    simp only [Gen.OneD.RectangleRuleSineEndPoints.pointsLen, Nat.add_sub_cancel]
     apply List.map_congr_left
     intro i _
-    simp only [Function.comp]
+    simp only [Gen.OneD.RectangleRuleSineEndPoints.pointAt, Gen.OneD.RectangleRuleSineEndPoints.points1,
+      Gen.OneD.RectangleRuleSineEndPoints.points0, Nat.cast_ofNat, Nat.cast_one]
     push_cast
     ring
   have hw : (RectangleRuleSineEndPoints.weights (K := ℝ) n).length = n := by
-    unfold RectangleRuleSineEndPoints.weights
-    rw [List.length_map]
-    apply vecMat_length
-    intro r hr
-    simp only [RectangleRuleSineEndPoints.sim, List.mem_map] at hr
-    obtain ⟨a, _, rfl⟩ := hr
-    simp [RectangleRuleSineEndPoints.points0]
+    simp [RectangleRuleSineEndPoints.weights, Gen.OneD.RectangleRuleSineEndPoints.weightsLen]
   rw [hp]
   exact closedShape_of _ _ _ _ n h1 hw h2 h3
 
@@ -157,24 +176,32 @@ theorem uniforminteger_shape (n : ℕ) (hn : 2 ≤ n) :
   have hmk : UniformInteger.make (K := ℝ) (n : ℤ)
       = oneDGrid (UniformInteger.points n) (UniformInteger.weights n) 0 none := by
     unfold UniformInteger.make
-    simp only [show ¬ ((n : ℤ) ≤ 1) by omega, if_false, Int.toNat_natCast, zero_real]
+    simp [Gen.OneD.UniformInteger.rejects, Gen.OneD.UniformInteger.lo, Gen.OneD.UniformInteger.hi,
+      show ¬ ((n : ℤ) ≤ 1) by omega]
+  have hp : UniformInteger.points (K := ℝ) n = (List.range n).map fun (i : ℕ) => (i : ℝ) := by
+    unfold UniformInteger.points
+    simp only [Gen.OneD.UniformInteger.pointsLen]
+    apply List.map_congr_left
+    intro i _
+    simp only [Gen.OneD.UniformInteger.pointAt, Gen.OneD.UniformInteger.points0]
   refine ⟨?_, ?_⟩
   · rw [hmk]
     apply closedShape_of
-    · simp [UniformInteger.points]
-    · simp [UniformInteger.weights]
-    · unfold UniformInteger.points
+    · simp [hp]
+    · simp [UniformInteger.weights, Gen.OneD.UniformInteger.weightsLen]
+    · rw [hp]
       apply pairwise_map_range
       intro i j hij _
       exact_mod_cast hij
     · intro x hx
-      simp only [UniformInteger.points, List.mem_map] at hx
+      rw [hp] at hx
+      simp only [List.mem_map] at hx
       obtain ⟨i, _, rfl⟩ := hx
       exact ⟨by positivity, fun b hb => by cases hb⟩
   · intro w hw
     simp only [UniformInteger.weights, List.mem_map] at hw
     obtain ⟨i, _, rfl⟩ := hw
-    simp
+    simp [Gen.OneD.UniformInteger.weightAt, Gen.OneD.UniformInteger.weights0]
 
 /-! ### cosine nodes -/
 
@@ -195,24 +222,25 @@ theorem chebyshevlobatto_shape (n : ℕ) (hn : 2 ≤ n) :
   have hmk : GaussChebyshevLobatto.make (K := ℝ) (n : ℤ)
       = oneDGrid (GaussChebyshevLobatto.points n) (GaussChebyshevLobatto.weights n) (-1) (some 1) := by
     unfold GaussChebyshevLobatto.make
-    simp only [show ¬ ((n : ℤ) ≤ 1) by omega, if_false, Int.toNat_natCast, negOne_real, one_real]
-  have hd : (0 : ℝ) < ((n - 1 : ℕ) : ℝ) := by
-    rw [cast_pred n hn]; have : (2 : ℝ) ≤ n := by exact_mod_cast hn
-    linarith
+    simp [Gen.OneD.GaussChebyshevLobatto.rejects, Gen.OneD.GaussChebyshevLobatto.lo,
+      Gen.OneD.GaussChebyshevLobatto.hi, show ¬ ((n : ℤ) ≤ 1) by omega]
+  have hd := pred_pos n hn
   have hp : GaussChebyshevLobatto.points (K := ℝ) n
-      = ((List.range n).map fun (i : ℕ) => Real.cos (π * (i : ℝ) / ((n - 1 : ℕ) : ℝ))).reverse := by
+      = ((List.range n).map fun (i : ℕ) => Real.cos (π * (i : ℝ) / ((n : ℝ) - 1))).reverse := by
+    rw [reverse_map_range]
     unfold GaussChebyshevLobatto.points
-    congr 1
+    simp only [Gen.OneD.GaussChebyshevLobatto.pointsLen]
     apply List.map_congr_left
     intro i _
-    simp only [Elem.cos, Elem.pi]
+    simp only [Gen.OneD.GaussChebyshevLobatto.pointAt, Gen.OneD.GaussChebyshevLobatto.points1,
+      Gen.OneD.GaussChebyshevLobatto.points0, Elem.cos, Elem.pi, Nat.cast_one]
     congr 1; ring
-  obtain ⟨h1, h2, h3⟩ := cos_nodes n (fun i => π * (i : ℝ) / ((n - 1 : ℕ) : ℝ))
-    (fun i hi => angle_bounds _ _ (by positivity) (by exact_mod_cast (by omega : i ≤ n - 1)) hd)
+  obtain ⟨h1, h2, h3⟩ := cos_nodes n (fun i => π * (i : ℝ) / ((n : ℝ) - 1))
+    (fun i hi => angle_bounds _ _ (by positivity) (cast_le_pred n i hi) hd)
     (fun i j hij _ => angle_mono _ _ _ (by exact_mod_cast hij) hd)
   rw [hmk]
   have hw : (GaussChebyshevLobatto.weights (K := ℝ) n).length = n := by
-    simp [GaussChebyshevLobatto.weights, divAt, GaussChebyshevLobatto.points]
+    simp [GaussChebyshevLobatto.weights, Gen.OneD.GaussChebyshevLobatto.weightsLen]
   apply closedShape_of
   · rw [hp]; exact h1
   · exact hw
@@ -355,25 +383,22 @@ theorem chebyshevlobatto_weights_formula (n : ℕ) (hn : 2 ≤ n) :
     GaussChebyshevLobatto.weights (K := ℝ) n = (List.range n).map fun (i : ℕ) =>
       (if i = 0 ∨ i = n - 1 then (1 / 2 : ℝ) else 1) * (π / ((n : ℝ) - 1)) *
         Real.sin (π * (i : ℝ) / ((n : ℝ) - 1)) := by
-  have hd : (0 : ℝ) < (n : ℝ) - 1 := by
-    have : (2 : ℝ) ≤ n := by exact_mod_cast hn
-    linarith
-  unfold GaussChebyshevLobatto.weights GaussChebyshevLobatto.points divAt
-  rw [reverse_map_range, List.map_map, mapIdx_map_range, mapIdx_map_range]
+  have hd := pred_pos n hn
+  unfold GaussChebyshevLobatto.weights
+  simp only [Gen.OneD.GaussChebyshevLobatto.weightsLen]
   apply List.map_congr_left
   intro i hi
   have hi' : i < n := List.mem_range.mp hi
-  simp only [Function.comp, Elem.cos, Elem.sqrt, Elem.pi, npow_eq_pow, Nat.cast_one, Nat.cast_ofNat,
-    cast_pred n hn]
+  simp only [Gen.OneD.GaussChebyshevLobatto.weightAt, Gen.OneD.GaussChebyshevLobatto.weights2,
+    Gen.OneD.GaussChebyshevLobatto.weights1, Gen.OneD.GaussChebyshevLobatto.weights0,
+    Gen.OneD.GaussChebyshevLobatto.points1, Gen.OneD.GaussChebyshevLobatto.points0,
+    Elem.cos, Elem.sqrt, Elem.pi, npow_eq_pow, Nat.cast_one, Nat.cast_ofNat]
   have hc : ((n - 1 - i : ℕ) : ℝ) = (n : ℝ) - 1 - i := by
     rw [Nat.cast_sub (by omega), cast_pred n hn]
   have harg : ((n - 1 - i : ℕ) : ℝ) * π / ((n : ℝ) - 1) = π - π * (i : ℝ) / ((n : ℝ) - 1) := by
     rw [hc]; field_simp
-  have hrange : 0 ≤ π * (i : ℝ) / ((n : ℝ) - 1) ∧ π * (i : ℝ) / ((n : ℝ) - 1) ≤ π := by
-    apply angle_bounds _ _ (by positivity) _ hd
-    have : i + 1 ≤ n := by omega
-    have : ((i + 1 : ℕ) : ℝ) ≤ n := by exact_mod_cast this
-    push_cast at this; linarith
+  have hrange : 0 ≤ π * (i : ℝ) / ((n : ℝ) - 1) ∧ π * (i : ℝ) / ((n : ℝ) - 1) ≤ π :=
+    angle_bounds _ _ (by positivity) (cast_le_pred n i hi') hd
   have hsq : Real.sqrt (1 - Real.cos (((n - 1 - i : ℕ) : ℝ) * π / ((n : ℝ) - 1)) ^ 2)
       = Real.sin (π * (i : ℝ) / ((n : ℝ) - 1)) := by
     rw [harg, Real.cos_pi_sub, neg_sq, ← Real.sin_sq,
@@ -397,18 +422,17 @@ theorem rectanglesine_weights_formula (n : ℕ) :
       (∑ m ∈ Finset.range n, (1 - Real.cos (((m + 1 : ℕ) : ℝ) * π)) / (((m + 1 : ℕ) : ℝ) * π) *
           Real.sin (((m + 1 : ℕ) : ℝ) * π * (((i + 1 : ℕ) : ℝ) / ((n + 1 : ℕ) : ℝ))))
         * (2 / ((n + 1 : ℕ) : ℝ)) * 2 := by
-  unfold RectangleRuleSineEndPoints.weights RectangleRuleSineEndPoints.bm
-    RectangleRuleSineEndPoints.sim RectangleRuleSineEndPoints.mpi RectangleRuleSineEndPoints.points0
-  simp only [List.map_map]
-  rw [show ((fun a : ℝ => List.map ((fun x => Elem.sin (a * x)) ∘ fun (i : ℕ) => ((i + 1 : ℕ) : ℝ) / ((n + 1 : ℕ) : ℝ))
-        (List.range n)) ∘ fun (i : ℕ) => ((i + 1 : ℕ) : ℝ) * Elem.pi)
-      = fun (m : ℕ) => (List.range n).map fun (i : ℕ) =>
-          Real.sin (((m + 1 : ℕ) : ℝ) * π * (((i + 1 : ℕ) : ℝ) / ((n + 1 : ℕ) : ℝ))) from rfl,
-    vecMat_map_range]
-  simp only [List.map_map]
+  unfold RectangleRuleSineEndPoints.weights
+  simp only [Gen.OneD.RectangleRuleSineEndPoints.weightsLen, Nat.add_sub_cancel]
   apply List.map_congr_left
   intro i _
-  simp only [Function.comp, Elem.cos, Elem.pi, Nat.cast_ofNat, Nat.cast_one]
+  simp only [Gen.OneD.RectangleRuleSineEndPoints.weightAt, Gen.OneD.RectangleRuleSineEndPoints.weights2,
+    Gen.OneD.RectangleRuleSineEndPoints.weights1, Gen.OneD.RectangleRuleSineEndPoints.weights0,
+    Gen.OneD.RectangleRuleSineEndPoints.bm0, Gen.OneD.RectangleRuleSineEndPoints.sim0,
+    Gen.OneD.RectangleRuleSineEndPoints.m0, Gen.OneD.RectangleRuleSineEndPoints.points0,
+    gsum_eq, Nat.add_sub_cancel, Elem.cos, Elem.sin, Elem.pi, Nat.cast_ofNat, Nat.cast_one, Nat.add_comm 1]
+  push_cast
+  rfl
 
 /-! ### Trefethen polynomial transformations of a rule on `[-1, 1]` -/
 
